@@ -1411,6 +1411,28 @@ theorem plain_len {n : Nat} (hn : 0 < n) (drop : Bool) (order : List Nat) :
   · simp [plainIter, plainLen, chunks, h1]
   · simp [plainIter, plainLen, chunks, h2]
 
+/-- The chunks of `BatchSampler` concatenate to the sampler's output. -/
+theorem chunksAux_flatten {α} {n : Nat} (hn : 0 < n) : ∀ (fuel : Nat) (l : List α), l.length ≤ fuel →
+    (chunksAux n fuel l).flatten = l := by
+  intro fuel
+  induction fuel with
+  | zero =>
+    intro l hl
+    have : l = [] := List.length_eq_zero_iff.mp (by omega)
+    subst this; rfl
+  | succ fuel ih =>
+    intro l hl
+    unfold chunksAux
+    by_cases he : l.isEmpty
+    · simp only [he, if_true]
+      have : l = [] := by simpa using he
+      subst this; rfl
+    · simp only [he]
+      have hne : l ≠ [] := by simpa using he
+      have hpos : 0 < l.length := List.length_pos_iff.mpr hne
+      have hd : (l.drop n).length ≤ fuel := by simp only [List.length_drop]; omega
+      simp only [Bool.false_eq_true, if_false, List.flatten_cons, ih _ hd, List.take_append_drop]
+
 end Plain
 
 /-! ## 8. sessions: several live iterators over one loader (`Session.step` / `Session.exec`) -/
@@ -1530,6 +1552,23 @@ theorem Session.exec_fresh (perm : Nat → List Nat) : ∀ (ops : List IOp) (s :
     show deliveredBy k ((op, (Session.step perm op s).1)
         :: (Session.exec perm ops (Session.step perm op s).2).1) = _
     rw [deliveredBy_cons_other k op _ _ hop, i1]
+
+/-- `m ≥ n` calls of `next` on a pass with `n` batches: the batches, then only StopIteration. -/
+theorem nextOf_range (bs : List (List Nat)) (m : Nat) (hm : bs.length ≤ m) :
+    (List.range m).map (fun i => Out.batch (nextOf (.ok (bs, none)) i))
+      = bs.map (fun b => Out.batch (.ok (some b))) ++ List.replicate (m - bs.length) (Out.batch (.ok none)) := by
+  apply List.ext_getElem?
+  intro i
+  simp only [List.getElem?_map, List.getElem?_append, List.length_map]
+  by_cases h : i < bs.length
+  · have h' : i < m := by omega
+    simp [h, h', nextOf]
+  · by_cases h2 : i < m
+    · have h3 : i - bs.length < m - bs.length := by omega
+      have h4 : bs[i]? = none := by simp; omega
+      simp [h, h2, h3, nextOf]
+    · have h3 : ¬ i - bs.length < m - bs.length := by omega
+      simp [h, h2, h3]
 
 end Sessions
 
